@@ -904,3 +904,10 @@ package mail
 //@   ensures[C10:no-fixed-boundary] msg.boundary == old(msg.boundary)
 //@ func mail.parseEML (parsedMsg, bodybuf, msg) (err)
 //@   ensures[C10:no-fixed-boundary] msg.boundary == old(msg.boundary)
+
+// C07 (continued): the "allow unencrypted" flag of the PLAIN / LOGIN mechanisms is set only for the auth types
+// that ask for it by name
+//@ at mail.Client.auth smtp.PlainAuth#1 before assert[C07:cleartext-only-when-asked] arg4 ==> authType == "PLAIN-NOENC"
+//@ at mail.Client.auth smtp.PlainAuth#2 before assert[C07:cleartext-only-when-asked] arg4 ==> authType == "PLAIN-NOENC"
+//@ at mail.Client.auth smtp.LoginAuth#1 before assert[C07:cleartext-only-when-asked] arg3 ==> authType == "LOGIN-NOENC"
+//@ at mail.Client.auth smtp.LoginAuth#2 before assert[C07:cleartext-only-when-asked] arg3 ==> authType == "LOGIN-NOENC"
